@@ -336,6 +336,73 @@ def reaching_def(fn_node: ast.AST, use: ast.Name) -> ast.AST | None:
 	return best.value if best is not None else None
 
 
+def may_reach(fn_node: ast.AST, use: ast.Name) -> list[ast.AST] | None:
+	"""the binding statements of use.id that MAY reach the use: the latest dominating one (straight line), every later one in a nested block between
+	it and the use (unless in the other arm of the same `if`), and — when the use sits in a loop that the dominating binding is outside of — every
+	binding inside that loop (back edge). None when the name has no binding in the function (parameter / global)."""
+	pm = parent_map(fn_node)
+
+	def ancestors(n: ast.AST) -> list[ast.AST]:
+		out = []
+		while id(n) in pm:
+			n = pm[id(n)]
+			out.append(n)
+		return out
+
+	def binds(n: ast.AST) -> bool:
+		if isinstance(n, ast.Assign):
+			return any(isinstance(t, ast.Name) and t.id == use.id for tg in n.targets for t in ast.walk(tg))
+		if isinstance(n, (ast.AnnAssign, ast.AugAssign)):
+			return isinstance(n.target, ast.Name) and n.target.id == use.id and getattr(n, 'value', None) is not None
+		if isinstance(n, (ast.For, ast.AsyncFor)):
+			return any(isinstance(t, ast.Name) and t.id == use.id for t in ast.walk(n.target))
+		if isinstance(n, ast.withitem):
+			return n.optional_vars is not None and any(isinstance(t, ast.Name) and t.id == use.id for t in ast.walk(n.optional_vars))
+		return False
+	all_b = [n for n in ast.walk(fn_node) if binds(n)]
+	if not all_b:
+		return None
+	anc_u = ancestors(use)
+	anc_ids = {id(a) for a in anc_u}
+	pos = lambda n: (n.lineno, n.col_offset)
+	before = [n for n in all_b if pos(n) < pos(use) and id(n) not in anc_ids]
+	dom = [n for n in before if id(pm.get(id(n))) in anc_ids]
+	# an enclosing for loop that binds the name dominates its own body
+	dom += [lp for lp in anc_u if isinstance(lp, (ast.For, ast.AsyncFor)) and binds(lp) and not any(use is y for y in ast.walk(lp.iter)) and not any(use is y for y in ast.walk(lp.target))]
+	d0 = max(dom, key=pos) if dom else None
+
+	def exclusive(a: ast.AST) -> bool:
+		"""a and the use are in different arms of one if / try"""
+		anc_a = ancestors(a)
+		for x in anc_a:
+			if id(x) in anc_ids and isinstance(x, ast.If):
+				in_body_a = any(a is s or any(a is y for y in ast.walk(s)) for s in x.body)
+				in_body_u = any(any(use is y for y in ast.walk(s)) for s in x.body)
+				in_test_u = any(use is y for y in ast.walk(x.test))
+				return not in_test_u and in_body_a != in_body_u
+			if id(x) in anc_ids:
+				return False
+		return False
+	out = [d0] if d0 is not None else []
+	for n in before:
+		if n is d0 or (d0 is not None and pos(n) < pos(d0)):
+			continue
+		if not exclusive(n):
+			out.append(n)
+	for lp in anc_u:
+		if isinstance(lp, (ast.For, ast.While, ast.AsyncFor)):
+			if d0 is not None and (d0 is lp or any(lp is x for x in ancestors(d0))):
+				continue
+			if binds(lp) and lp not in out:
+				out.append(lp)
+			for n in all_b:
+				if n is not lp and any(lp is x for x in ancestors(n)) and n not in out and not exclusive(n):
+					out.append(n)
+	if d0 is None and not out:
+		return None
+	return out
+
+
 def expand_use(fn_node: ast.AST, e: ast.AST, depth: int = 3) -> ast.AST:
 	"""copy of e (a node inside fn_node) with every local name replaced by its reaching definition (recursively)"""
 	import copy
